@@ -8,16 +8,20 @@ from .. import flow
 PID = "C05"
 LEVEL = "other"
 EXPLANATION = (
-    "Static analysis over MIR of the async client. Decided: R1 the ordered list of deserialisation targets tried for a "
-    "single `{` message equals the list tried for each element of a `[` message, every single-message attempt parses the "
-    "whole message and every element attempt parses the loop element (never the enclosing array); R2 a subscription "
-    "notification is routed sink <- as_subscription_mut(request id) <- get_request_id_by_subscription_id(sub id) <- the "
-    "notification's own params.subscription, and the payload sent is its params.result; R3 SubscriptionSender::send maps "
-    "Full to set_lagged + TooSlow and Closed to Closed, and both failure arms of process_subscription_response return "
-    "Some(that subscription id) which the caller turns into FrontToBack::SubscriptionClosed; R4 unsubscribe requests are "
-    "built only by build_unsubscribe_message, behind RequestManager::unsubscribe(..)? (which removes the reverse-index "
-    "entry on its only mutating path), and Subscription::{unsubscribe,drop} take the kind with Option::take and enqueue "
-    "exactly one message. NOT decided: ordering under every schedule, buffer arithmetic."
+    'Static analysis over MIR of the async client. Decided: R1 the ordered list of deserialisation targets tried for '
+    'a single `{` message equals the list tried for each element of a `[` message, every single-message attempt '
+    'parses the whole message and every element attempt parses the loop element (never the enclosing array); R2 a '
+    'subscription notification is routed sink <- as_subscription_mut(request id) <- '
+    "get_request_id_by_subscription_id(sub id) <- the notification's own params.subscription, and the payload sent is "
+    'its params.result; R3 SubscriptionSender::send maps Full to set_lagged + TooSlow and Closed to Closed, and both '
+    'failure arms of process_subscription_response return Some(that subscription id) which the caller turns into '
+    'FrontToBack::SubscriptionClosed; R4 unsubscribe requests are built only by build_unsubscribe_message, behind '
+    'RequestManager::unsubscribe(..)? (which removes the reverse-index entry on its only mutating path), and '
+    'Subscription::{unsubscribe,drop} take the kind with Option::take and enqueue exactly one message. R5 the read '
+    'task forwards SubscriptionClosed/unsubscribe messages with the waiting send (parked as pending future), never '
+    'try_send, and try_send on the request queue appears only in Drop for Subscription; R6 RequestManager::insert_* '
+    'cannot refuse after having changed a table and never overwrite blindly; ARR the array arm processes every '
+    'element. NOT decided: ordering under every schedule, buffer arithmetic.'
 )
 RULE_TEXT = "instances = classifier attempts, routing steps, failure arms, unsubscribe construction sites"
 TRUSTED = ["rustc MIR", "tokio mpsc FIFO and try_send semantics", "serde_json"]
